@@ -1190,6 +1190,8 @@ def main(outfile):
                               lambda: fn_ast(simulator.Circuit._simulate), write_if_changed)
     import py2lean_timeunits                                     # separate module: utils/timeunits.py (C19)
     py2lean_timeunits.main_timeunits(os.path.join(os.path.dirname(outfile), 'TranslatedTimeUnits.lean'), write_if_changed)
+    import py2lean_cron                                          # separate module: cron, TimeDate, TimeSpan (C07)
+    py2lean_cron.main_cron(os.path.join(os.path.dirname(outfile), 'TranslatedCron.lean'), sys.modules[__name__])
 
     import py2lean_interval                                      # separate module: interval notations, timeinterval.py (C13)
     py2lean_interval.main_interval(os.path.join(os.path.dirname(outfile), 'TranslatedInterval.lean'), write_if_changed)
